@@ -61,12 +61,11 @@ func VerifC06CalculatePrice() {
 	ready := vs.And(total.Cmp(quorumB) >= 0, new(big.Int).Mul(avail, two).Cmp(total) >= 0)
 	available := vs.And(!unknown, ready)
 
-	vs.Known("C06-zero-quorum-empty-vector", vs.And(available, !anyAvail))
-	vs.Assert("no-error", err == nil)
 	vs.Assert("error-only-when-available-rule-holds-without-available-entry", (err != nil) == vs.And(available, !anyAvail))
 	if err != nil {
-		vs.Reach("error-zero-quorum-empty", vs.And(total.Sign() == 0, quorumB.Sign() == 0))
 		vs.Assert("error-needs-zero-total-and-zero-quorum", vs.And(total.Sign() == 0, quorumB.Sign() == 0))
+		vs.Known("C06-zero-quorum-empty-vector", vs.And(available, !anyAvail))
+		vs.Assert("no-error", false)
 		return
 	}
 	vs.Assert("unknown-iff-unsupported-majority", (got.Status == types.PRICE_STATUS_UNKNOWN_SIGNAL_ID) == unknown)
